@@ -112,6 +112,62 @@ theorem reach_witness {c : Cfg} (progs : List (List Op)) (ls : List Label) (q : 
     rw [hr] at h
     exact ⟨s, reach_runLabels ls (Reach.init progs (by simpa using hd) hn) hr, by simpa using h⟩
 
+/-! ### executions with failing primitive calls -/
+
+/-- states reachable when, in addition, any primitive call may FAIL (`failStep`: `p_mutex_lock`,
+    `p_mutex_unlock`, `p_cond_variable_wait`, signal, broadcast returning FALSE), any number of times -/
+inductive ReachF (c : Cfg) : State → Prop
+  | init (progs : List (List Op)) (hd : ∀ p ∈ progs, Disc p = true) (hn : progs.length < 2^15) : ReachF c (init progs)
+  | step {s s' : State} {t : Tid} {pick : Option Tid} : ReachF c s → stepThread c s t pick = some s' → ReachF c s'
+  | spur {s s' : State} {t : Tid} : ReachF c s → spurious s t = some s' → ReachF c s'
+  | fail {s s' : State} {t : Tid} {zero : Bool} : ReachF c s → failStep s t zero = some s' → ReachF c s'
+
+/-- every failure-free execution is one -/
+theorem Reach.toF {c : Cfg} {s : State} (h : Reach c s) : ReachF c s := by
+  induction h with
+  | init progs hd hn => exact .init progs hd hn
+  | step _ hs ih => exact .step ih hs
+  | spur _ hs ih => exact .spur ih hs
+
+inductive LabelF
+  | run (t : Tid) (pick : Option Tid)
+  | spur (t : Tid)
+  | fail (t : Tid) (zero : Bool)
+
+def runLabelsF (c : Cfg) : State → List LabelF → Option State
+  | s, [] => some s
+  | s, .run t pick :: ls => (stepThread c s t pick).bind (runLabelsF c · ls)
+  | s, .spur t :: ls => (spurious s t).bind (runLabelsF c · ls)
+  | s, .fail t z :: ls => (failStep s t z).bind (runLabelsF c · ls)
+
+theorem reachF_runLabels {c : Cfg} : ∀ {s s' : State} (ls : List LabelF), ReachF c s → runLabelsF c s ls = some s' → ReachF c s'
+  | s, s', [], h, e => by simp [runLabelsF] at e; exact e ▸ h
+  | s, s', .run t pick :: ls, h, e => by
+    simp only [runLabelsF] at e
+    cases hs : stepThread c s t pick with
+    | none => simp [hs] at e
+    | some s1 => rw [hs] at e; exact reachF_runLabels ls (ReachF.step h hs) e
+  | s, s', .spur t :: ls, h, e => by
+    simp only [runLabelsF] at e
+    cases hs : spurious s t with
+    | none => simp [hs] at e
+    | some s1 => rw [hs] at e; exact reachF_runLabels ls (ReachF.spur h hs) e
+  | s, s', .fail t z :: ls, h, e => by
+    simp only [runLabelsF] at e
+    cases hs : failStep s t z with
+    | none => simp [hs] at e
+    | some s1 => rw [hs] at e; exact reachF_runLabels ls (ReachF.fail h hs) e
+
+/-- a state reached by a concrete schedule with failing calls that satisfies a (decidable) test -/
+theorem reachF_witness {c : Cfg} (progs : List (List Op)) (ls : List LabelF) (q : State → Bool)
+    (hd : (progs.all fun p => Disc p) = true) (hn : progs.length < 2^15)
+    (h : (runLabelsF c (init progs) ls).any q = true) : ∃ s, ReachF c s ∧ q s = true := by
+  cases hr : runLabelsF c (init progs) ls with
+  | none => simp [hr] at h
+  | some s =>
+    rw [hr] at h
+    exact ⟨s, reachF_runLabels ls (ReachF.init progs (by simpa using hd) hn) hr, by simpa using h⟩
+
 /-- thread `t` can make a (non-spurious) step -/
 def Enabled (c : Cfg) (s : State) (t : Tid) : Prop := ∃ pick s', stepThread c s t pick = some s'
 
